@@ -10,7 +10,7 @@ host-side result handles of pair i must read pair i's fields.
 import z3
 
 from ..common import Report, pmap, trace_functions, worker_result
-from ..netharness import NetExecutor, ok_k, ok_m
+from ..netharness import NetExecutor, ok_k, ok_k_qlink1, ok_m, ok_m_qlink1
 from ..pipeline import PipeConnection
 from ..symx import EQ, Explorer, Infeasible, Ob, PathAbort, SymInt, run_concrete
 
@@ -164,6 +164,51 @@ def body_request(spec):
     return body
 
 
+BELL_NAMES = ["PHI_PLUS", "PSI_PLUS", "PSI_MINUS", "PHI_MINUS"]
+
+
+def body_results_qlink1(spec):
+    """result handles when the link layer answers in qlink-interface 1.0 form: the Bell state a handle reports is the one the response NAMED"""
+    kind, role, number = spec["kind"], spec["role"], spec["number"]
+
+    def body(inp):
+        conn, sock, ex = mk_conn("generic")
+        site = {"kind": kind, "role": role, "wire": "qlink1"}
+        creator = role == "create"
+        names = [BELL_NAMES[inp.choice(f"bellname{i}", 4)] for i in range(number)]
+        outs = [inp.choice(f"out{i}", 2) for i in range(number)]
+        try:
+            infos = results = None
+            if kind == "keep":
+                _q, infos = (sock.create_keep_with_info(number=number) if creator else sock.recv_keep_with_info(number=number, expect_phi_plus=False))
+                for i in range(number):
+                    ex.deliveries.append(ok_k_qlink1(ex, creator=creator, purpose_id=SOCK_ID, remote_node_id=REMOTE_NODE, bell_name=names[i], seq=i, create_id=i, goodness=11 + i))
+            else:
+                results = sock.create_measure(number=number) if creator else sock.recv_measure(number=number, expect_phi_plus=False)
+                for i in range(number):
+                    ex.deliveries.append(ok_m_qlink1(ex, creator=creator, purpose_id=SOCK_ID, remote_node_id=REMOTE_NODE, bell_name=names[i], outcome=outs[i], seq=i,
+                                                     create_id=i, goodness=11 + i))
+            conn.flush()
+        except (PathAbort, Infeasible):
+            raise
+        except Exception as e:  # noqa
+            return [Ob("pipeline_raises", False, dict(site, exc=type(e).__name__), info=f"{type(e).__name__}: {str(e)[:300]}")]
+        obs = []
+        try:
+            for i, h in enumerate(infos if infos is not None else results):
+                obs.append(Ob("bell_state_named_by_the_response", h.bell_state.name == names[i], dict(site, field="bell_state"),
+                              info={"pair": i, "reported": names[i], "handle": h.bell_state.name}))
+                obs.append(Ob("result_field", h.generation_duration.value == 11 + i, dict(site, field="generation_duration"), info={"pair": i}))
+                if results is not None:
+                    obs.append(Ob("result_field", h.raw_measurement_outcome.value == outs[i], dict(site, field="raw_measurement_outcome"), info={"pair": i}))
+        except (PathAbort, Infeasible):
+            raise
+        except Exception as e:  # noqa
+            obs.append(Ob("handle_read_raises", False, dict(site, exc=type(e).__name__), info=f"{type(e).__name__}: {str(e)[:200]}"))
+        return obs
+    return body
+
+
 def body_results(spec):
     kind, role, number, hw = spec["kind"], spec["role"], spec["number"], spec.get("hw", "generic")
 
@@ -241,6 +286,8 @@ def body_results(spec):
 
 
 def body_of(spec):
+    if spec["dir"] == "results_qlink1":
+        return body_results_qlink1(spec)
     return body_request(spec) if spec["dir"] == "request" else body_results(spec)
 
 
@@ -286,6 +333,9 @@ def main(tier, seed):
             specs.append({"dir": "results", "kind": "measure", "role": role, "number": number})
         specs.append({"dir": "results", "kind": "rsp_recv", "role": "recv", "number": number})
         specs.append({"dir": "results", "kind": "rsp_create", "role": "create", "number": number})
+    for role in ("create", "recv"):
+        specs.append({"dir": "results_qlink1", "kind": "keep", "role": role, "number": 2})
+        specs.append({"dir": "results_qlink1", "kind": "measure", "role": role, "number": 2})
     specs.append({"dir": "results", "kind": "keep", "role": "create", "number": 2, "hw": "nv"})
     specs.append({"dir": "results", "kind": "keep", "role": "recv", "number": 2, "hw": "nv"})
     rep.bounds = [f"request direction: create_keep, create_keep_with_info, create(tp=K/M), create_context, create_measure, create_rsp; pairs 1..{maxn}; "
